@@ -515,7 +515,9 @@ def call(I, fr, name, fname, k, args, depth):
             # a value the fmt model cannot print (Debug of a crate type in an error message, ...):
             # the text becomes an opaque string, as before the model existed; a rule that needs
             # the text then fails closed when it looks at it
-            if name.endswith("fmt::format") or "to_string" in name:
+            import os as _os
+
+            if (name.endswith("fmt::format") or "to_string" in name) and not _os.environ.get("VERIF_FMT_STRICT"):
                 return Opaque("string")
             raise
         if handled:
@@ -624,6 +626,20 @@ def call(I, fr, name, fname, k, args, depth):
                 break
         return it
 
+    if name.endswith("slice::<impl [T]>::sort_unstable") or name.endswith("slice::<impl [T]>::sort"):
+        sl = as_slice(I, args[0])
+        vals = sl.heap[sl.start:sl.start + sl.len]
+        if not all(isinstance(x, int) for x in vals):
+            from .minimir import freeze as _fz
+
+            try:
+                vals = sorted(vals, key=_fz)
+            except TypeError:
+                raise Unsupported("sort of non-scalar elements")
+        else:
+            vals = sorted(vals)
+        sl.heap[sl.start:sl.start + sl.len] = vals
+        return []
     if name.endswith("slice::<impl [T]>::windows"):
         if args[1] == 0:
             raise Panic("windows(0)")
@@ -958,11 +974,33 @@ def call(I, fr, name, fname, k, args, depth):
     if name.endswith("option::Option::<T>::zip"):
         a_, b_ = args[0], args[1]
         return some([a_.fields[0], b_.fields[0]]) if a_.vi == 1 and b_.vi == 1 else NONE()
+    if name.endswith("option::Option::<T>::as_ref") or name.endswith("option::Option::<T>::as_mut"):
+        o = deref(I, args[0])
+        if o.vi == 0:
+            return NONE()
+        r = args[0]
+        return some(Ref(r.frame, r.local, list(r.path) + [("f", 0)]))
+    if name.endswith("str::<impl str>::split_once") or name.endswith("str::<impl str>::rsplit_once"):
+        a = as_slice(I, args[0])
+        hay = bytes(a.heap[a.start:a.start + a.len])
+        b = deref(I, args[1])
+        pat = chr(b).encode("utf-8") if isinstance(b, int) else bytes(as_slice(I, b).heap[as_slice(I, b).start:as_slice(I, b).start + as_slice(I, b).len])
+        idx_ = hay.find(pat) if name.endswith("::split_once") else hay.rfind(pat)
+        if idx_ < 0 or not pat:
+            return NONE()
+        return some([Slice(a.heap, a.start, idx_, 1), Slice(a.heap, a.start + idx_ + len(pat), a.len - idx_ - len(pat), 1)])
     if name.endswith("option::Option::<T>::as_deref"):
         o = deref(I, args[0])
         if o.vi == 0:
             return NONE()
         return some(as_slice(I, o.fields[0]))
+    if name.startswith("anyhow::") or name.startswith("<anyhow::"):
+        if name.endswith("__private::not"):
+            v_ = deref(I, args[0])
+            return int(not v_)
+        if "Error" in name or "format_err" in name or name.endswith("::msg") or "Context" in name:
+            return Opaque("anyhow::Error")
+        raise Unsupported("unmodelled call %s" % name)
     if name.endswith("cell::OnceCell::<T>::new"):
         return Adt("core::cell::OnceCell", 0, "OnceCell", [NONE()])
     if name.endswith("cell::OnceCell::<T>::get_or_init"):
@@ -1458,6 +1496,54 @@ def call(I, fr, name, fname, k, args, depth):
         import math
 
         return int(math.isfinite(args[0]))
+    mf = re.search(r"<impl f64>::(\w+)$", name)
+    if mf and isinstance(deref(I, args[0]), (int, float)):
+        import math
+
+        x = float(deref(I, args[0]))
+        meth = mf.group(1)
+        if meth == "is_sign_negative":
+            return int(math.copysign(1.0, x) < 0)
+        if meth == "is_sign_positive":
+            return int(math.copysign(1.0, x) > 0)
+        if meth == "is_infinite":
+            return int(math.isinf(x))
+        if meth == "abs":
+            return abs(x)
+        if meth in ("floor", "ceil", "trunc", "round"):
+            if not math.isfinite(x):
+                return x
+            if meth == "round":
+                return float(math.floor(abs(x) + 0.5)) * (1 if x >= 0 else -1)
+            return float({"floor": math.floor, "ceil": math.ceil, "trunc": math.trunc}[meth](x))
+        if meth == "fract":
+            return x - math.trunc(x) if math.isfinite(x) else float("nan")
+        if meth == "to_bits":
+            import struct as _st
+
+            return _st.unpack("<Q", _st.pack("<d", x))[0]
+        if meth == "from_bits":
+            import struct as _st
+
+            return _st.unpack("<d", _st.pack("<Q", int(args[0])))[0]
+        if meth in ("min", "max"):
+            y = float(args[1])
+            if x != x:
+                return y
+            if y != y:
+                return x
+            return min(x, y) if meth == "min" else max(x, y)
+        if meth == "signum":
+            return float("nan") if x != x else math.copysign(1.0, x)
+        if meth == "powi":
+            try:
+                return x ** int(args[1])
+            except (OverflowError, ZeroDivisionError):
+                return float("inf")
+        if meth == "sqrt":
+            return math.sqrt(x) if x >= 0 else float("nan")
+        if meth == "log10" and x > 0:
+            return math.log10(x)
     if name.endswith("<impl f64>::is_nan"):
         import math
 
@@ -1512,6 +1598,11 @@ def call(I, fr, name, fname, k, args, depth):
         if name.endswith("prefix"):
             return some(Slice(a.heap, a.start + len(pat), a.len - len(pat), 1)) if hay.startswith(pat) else NONE()
         return some(Slice(a.heap, a.start, a.len - len(pat), 1)) if hay.endswith(pat) else NONE()
+    if name.endswith("str::<impl str>::repeat"):
+        a = as_slice(I, args[0])
+        if args[1] * a.len > 1 << 24:
+            raise Unsupported("str::repeat of %d bytes" % (args[1] * a.len))
+        return StrBuf(list(a.heap[a.start:a.start + a.len]) * args[1])
     if name.endswith("str::<impl str>::replace") or name.endswith("str::<impl str>::replacen"):
         a = as_slice(I, args[0])
         hay = bytes(a.heap[a.start:a.start + a.len])
@@ -1559,6 +1650,9 @@ def call(I, fr, name, fname, k, args, depth):
             pats = [chr(x).encode("utf-8") for x in b]
             if meth == "contains":
                 return int(any(p_ in hay for p_ in pats))
+            if meth == "find":
+                hits = [hay.find(p_) for p_ in pats if hay.find(p_) >= 0]
+                return some(min(hits)) if hits else NONE()
             raise Unsupported("str::%s with char array" % meth)
         else:
             raise Unsupported("str::%s pattern %r" % (meth, b))
@@ -1694,7 +1788,7 @@ def call(I, fr, name, fname, k, args, depth):
             raise Unsupported("pointer cast to %r" % (g,))
         return Ptr(p.heap, p.off, ps, p.helem)
     # ---- integer helpers
-    m = re.search(r"num::<impl (u8|u16|u32|u64|usize|i8|i16|i32|i64|isize|u128)>::(\w+)$", name)
+    m = re.search(r"num::<impl (u8|u16|u32|u64|usize|i8|i16|i32|i64|isize|u128|i128)>::(\w+)$", name)
     if m:
         ty, meth = m.group(1), m.group(2)
         bits, signed = INT_TYPES[ty]
@@ -1702,14 +1796,36 @@ def call(I, fr, name, fname, k, args, depth):
         if isinstance(a, Ref):
             a = I.read_path(a.frame, a.local, a.path)
         ua = (a & ((1 << bits) - 1)) if isinstance(a, int) else None
-        if meth == "checked_add":
-            r = a + args[1]
-            hi = (1 << (bits - 1)) - 1 if signed else (1 << bits) - 1
-            return some(r) if r <= hi else NONE()
-        if meth == "checked_mul":
-            r = a * args[1]
-            hi = (1 << (bits - 1)) - 1 if signed else (1 << bits) - 1
-            return some(r) if r <= hi else NONE()
+        lo_, hi_ = (-(1 << (bits - 1)), (1 << (bits - 1)) - 1) if signed else (0, (1 << bits) - 1)
+
+        def tdiv(x, y):
+            q = abs(x) // abs(y)
+            return q if (x >= 0) == (y >= 0) else -q
+
+        if meth in ("checked_add", "checked_sub", "checked_mul", "checked_neg", "checked_abs", "checked_pow", "checked_rem", "checked_div"):
+            b_ = args[1] if len(args) > 1 else None
+            if meth in ("checked_div", "checked_rem") and b_ == 0:
+                return NONE()
+            r = {"checked_add": lambda: a + b_, "checked_sub": lambda: a - b_, "checked_mul": lambda: a * b_, "checked_neg": lambda: -a,
+                 "checked_abs": lambda: abs(a), "checked_pow": lambda: a ** b_, "checked_div": lambda: tdiv(a, b_), "checked_rem": lambda: a - b_ * tdiv(a, b_)}[meth]()
+            return some(r) if lo_ <= r <= hi_ else NONE()
+        if meth in ("abs", "unsigned_abs"):
+            return abs(a) if meth == "unsigned_abs" else wrap(abs(a), ty)
+        if meth == "pow":
+            return wrap(a ** args[1], ty)
+        if meth == "signum":
+            return (a > 0) - (a < 0)
+        if meth in ("is_negative", "is_positive"):
+            return int(a < 0) if meth == "is_negative" else int(a > 0)
+        if meth in ("overflowing_add", "overflowing_sub", "overflowing_mul"):
+            r = a + args[1] if meth.endswith("add") else a - args[1] if meth.endswith("sub") else a * args[1]
+            return [wrap(r, ty), int(not (lo_ <= r <= hi_))]
+        if meth in ("min", "max"):
+            return min(a, args[1]) if meth == "min" else max(a, args[1])
+        if meth == "rem_euclid":
+            return a % abs(args[1])
+        if meth == "div_euclid":
+            return (a - (a % abs(args[1]))) // args[1]
         if meth == "is_ascii_digit":
             return int(0x30 <= a <= 0x39)
         if meth == "is_ascii_alphabetic":
@@ -1754,8 +1870,6 @@ def call(I, fr, name, fname, k, args, depth):
             hi = (1 << (bits - 1)) - 1 if signed else (1 << bits) - 1
             lo = -(1 << (bits - 1)) if signed else 0
             return max(lo, min(a * args[1], hi))
-        if meth == "checked_div":
-            return NONE() if args[1] == 0 else some(a // args[1])
         if meth == "is_power_of_two":
             return int(ua != 0 and (ua & (ua - 1)) == 0)
         if meth == "next_power_of_two":
@@ -1935,6 +2049,8 @@ def deref_val(I, v):
 
 def as_slice(I, v):
     v = deref(I, v)
+    if isinstance(v, Adt) and v.path.endswith("borrow::Cow"):
+        v = deref(I, v.fields[0])
     if isinstance(v, Slice):
         return v
     if isinstance(v, StrBuf):
